@@ -71,7 +71,7 @@ var storeFuncs = map[string]bool{
 	"getLabelIndex": true, "putLabelIndex": true, "deleteLabelIndex": true,
 	"d.getStoreData": true, "d.putStoreData": true, "d.deleteStoreData": true,
 	"db.Put": true, "db.Delete": true, "db.Get": true, "txn.Set": true, "txn.Delete": true,
-	"d.cleaveIndex": true, "ChangeLabelIndex": true,
+	"d.cleaveIndex": true, "ChangeLabelIndex": true, "addToLabelIndex": true,
 }
 
 var annotationReads = map[string][]string{
@@ -130,11 +130,13 @@ var lockSites = []lockSite{
 			"GetLabelIndex(d, v, label":     {pkg: "datatype/labelmap", fn: "GetLabelIndex", loc: map[string]string{"index": "merged"}, rename: map[string]string{"indexMu[shard]": "indexMu[merged]"}},
 			"GetLabelIndex(d, v, op.Target": {pkg: "datatype/labelmap", fn: "GetLabelIndex", loc: map[string]string{"index": "target"}, rename: indexRename},
 			"PutLabelIndex(d, v, op.Target": {pkg: "datatype/labelmap", fn: "PutLabelIndex", loc: map[string]string{"index": "target"}, rename: indexRename},
-			"DeleteLabelIndex(d, v, merged": {pkg: "datatype/labelmap", fn: "DeleteLabelIndex", loc: map[string]string{"index": "merged"}, rename: map[string]string{"indexMu[shard]": "indexMu[merged]"}},
-			"DeleteLabelIndex(d, v, label":  {pkg: "datatype/labelmap", fn: "DeleteLabelIndex", loc: map[string]string{"index": "target"}, rename: indexRename},
+			// repo_patches/C11-5-fix: the target's index is re-read and written under its shard lock
+			"addToLabelIndex(d, v, op.Target": {pkg: "datatype/labelmap", fn: "addToLabelIndex", loc: map[string]string{"index": "target"}, rename: indexRename},
+			"DeleteLabelIndex(d, v, merged":   {pkg: "datatype/labelmap", fn: "DeleteLabelIndex", loc: map[string]string{"index": "merged"}, rename: map[string]string{"indexMu[shard]": "indexMu[merged]"}},
+			"DeleteLabelIndex(d, v, label":    {pkg: "datatype/labelmap", fn: "DeleteLabelIndex", loc: map[string]string{"index": "target"}, rename: indexRename},
 		},
-		reads:  map[string][]string{"GetLabelIndex/getCachedLabelIndex": {"index"}},
-		writes: map[string][]string{"PutLabelIndex/putCachedLabelIndex": {"index"}, "DeleteLabelIndex/deleteCachedLabelIndex": {"index"}},
+		reads:  map[string][]string{"GetLabelIndex/getCachedLabelIndex": {"index"}, "addToLabelIndex/getCachedLabelIndex": {"index"}},
+		writes: map[string][]string{"PutLabelIndex/putCachedLabelIndex": {"index"}, "DeleteLabelIndex/deleteCachedLabelIndex": {"index"}, "addToLabelIndex/putCachedLabelIndex": {"index"}},
 		choose: map[string]string{"idx == nil": "else"}, // PutLabelIndex with a nil index deletes: not the merge path
 	},
 	{name: "labelmap.CleaveLabel", pkg: "datatype/labelmap", fn: "Data.CleaveLabel",
@@ -155,6 +157,10 @@ var lockSites = []lockSite{
 		reads:  map[string][]string{"repoManager.newVersion/range node.children": {"children"}},
 		writes: map[string][]string{"repoManager.newVersion/= node.children": {"children"}},
 		choose: map[string]string{`branchname == "" || branchname == node.branch`: "then"},
+	},
+	// merge appends its child to the children list of every parent (no uniqueness check)
+	{name: "datastore.merge", pkg: "datastore", fn: "repoManager.merge",
+		writes: map[string][]string{"repoManager.merge/= node.children": {"children"}},
 	},
 }
 
